@@ -635,7 +635,7 @@ def check(crate):
                 case = _case_of(p.guards, pos, ng, () if uses_n else (NE_SE,), () if uses_n else (EQ_SE,))
                 gtxt = " & ".join(rel_show(g) for g in p.guards) or "no guard"
                 if case is None:
-                    if p.unknown:
+                    if p.unknown or _has_unk(p.ret):
                         undec.append("path under [%s] not classified (%s)" % (gtxt, "; ".join(p.unknown)))
                     else:
                         probs.append("a path under [%s] returns %s without deciding `%s`" % (gtxt, _val_show(p.ret), rel_show(pos)))
